@@ -232,7 +232,7 @@ def main():
                 "verified": {
                     "how": "scratch worktree of /repo HEAD (seedverify.sh): git apply patch.diff; pytest (143 passed, the 7 baseline "
                            "pandas failures); demo.py exit status with / without the patch",
-                    "repo_head": head, "tests_with_patch": ver.get("tests_with_patch", "").strip("= "),
+                    "repo_head": ver.get("repo_head", head), "final_repo_head": head, "tests_with_patch": ver.get("tests_with_patch", "").strip("= "),
                     "demo_exit_with_patch": ver.get("demo_exit_patched"), "demo_exit_without_patch": ver.get("demo_exit_clean"),
                 },
                 "caught_by_quick_check": caught, "not_caught_by_quick_check": missed,
